@@ -20,7 +20,7 @@ def gen_comp_spec(rng):
     npar = rng.randint(0, 2)
     ndef = rng.randint(0, npar)
     sp["params"] = ["p%d" % i for i in range(npar)]
-    sp["defaults"] = {"p%d" % i: ("D", i) for i in range(npar - ndef, npar)}
+    sp["defaults"] = {"p%d" % i: (None if rng.random() < 0.3 else rng.choice([("D", i), 0, ""])) for i in range(npar - ndef, npar)}
     for nd in sp["nodes"]:
         nd["args"] = [a for a in nd["args"] if a[0] != "p"]
         for p in sp["params"]:
@@ -166,6 +166,16 @@ def comp_case(col, rng, cidx, jobref=None):
             # a setup node downstream of a composed input would depend on a DAG argument (forbidden by C11's build rule):
             # the statement does not say what compose should do; not generated (DESIGN 6.11)
             col.counters["skipped_setup_node_downstream_of_input"] += 1
+            # the outcome is not judged (DESIGN 6.11), but whatever compose does - refuse or build - it must leave the
+            # original untouched: the attempt is made and the "original unchanged" checks below see its effect
+            try:
+                with warnings.catch_warnings():
+                    warnings.simplefilter("ignore")
+                    d.compose("cmp%d_%d_x" % (cidx, _k), in_alias, out_alias)
+            except BaseException as e:  # noqa: BLE001
+                if isinstance(e, (KeyboardInterrupt, SystemExit)):
+                    raise
+                col.counters["unjudged_compose_refused:%s" % type(e).__name__] += 1
             continue
         missing = [p for p in need_par if p not in par_in and p in required]
         exp_err = exp_err or bool(missing)
